@@ -11,7 +11,8 @@ import re
 
 from .. import core, impl, sweep, models
 
-CLAUSES = {"cost", "depth", "lookup", "no-class", "raised"}
+# `lookup` / `classify` / `layer` (logged internal events) are diagnostics of the trace spec, not part of this property
+CLAUSES = {"cost", "depth", "no-class", "raised"}
 
 
 def run(tier):
